@@ -110,13 +110,30 @@ class Bail(Exception):
     pass
 
 
+def id_test_func(prog):
+    """the id test: the module function task._has_id_intersection, or - when it was moved into the class - the private static method
+    of Task with that name (`Task.__has_id_intersection(parent, children)`; taskrules.canon_atom reads its calls under the module name).
+    Falls back to prog.func (AnchorMissing) when there is neither."""
+    h = prog.funcs.get('task._has_id_intersection')
+    if h is not None:
+        return h
+    cands = [m for m in prog.cls('Task').methods.values() if m.kind == 'static' and m.name.lstrip('_') == 'has_id_intersection' and
+             len(m.params) == 2]
+    if len(cands) == 1:
+        return cands[0]
+    return prog.func('task._has_id_intersection')
+
+
 def id_helpers(prog):
     """(root finder, subtree collector) of the id test: the module functions _find_root / _collect_subtree, or the Task methods the
     id test calls in their place (`parent._tree_root()`, `x._subtree()`)"""
     fr, cs = prog.funcs.get('task._find_root'), prog.funcs.get('task._collect_subtree')
     if fr is not None and cs is not None:
         return fr, cs
-    h = prog.funcs.get('task._has_id_intersection')
+    try:
+        h = id_test_func(prog)
+    except Exception:
+        h = None
     if h is None:
         return fr, cs
     par = h.params[0]
@@ -805,10 +822,25 @@ class IdCheck:
                     isinstance(st.value, ast.Constant) and isinstance(st.value.value, bool):
                 env[st.targets[0].id] = ('BOOL', ('const', st.value.value))
                 continue
+            if isinstance(st, ast.Assign) and len(st.targets) == 1 and isinstance(st.targets[0], ast.Name) and self._truth_valued(st.value, env):
+                # `duplicates = len(ids) != len(tasks)`: a test hoisted into a local, read later as a truth value
+                env[st.targets[0].id] = ('BOOL', self.boolf(st.value, env, func))
+                continue
             if isinstance(st, ast.Raise):
                 raise Bail("raise inside the predicate")
             self._stmt(st, env, func)
         return ('const', False)
+
+    def _truth_valued(self, e, env) -> bool:
+        """e is a comparison / negation / conjunction of such (never a collection)"""
+        if isinstance(e, ast.Compare):
+            return True
+        if isinstance(e, ast.UnaryOp) and isinstance(e.op, ast.Not):
+            return True
+        if isinstance(e, ast.BoolOp):
+            return all(self._truth_valued(v, env) or (isinstance(v, ast.Name) and isinstance(env.get(v.id), tuple) and env[v.id][0] == 'BOOL')
+                       for v in e.values)
+        return False
 
     def _flag_loop(self, st: ast.For, env, func):
         """for t in X: if C(t): flag = True [; seen.add(..)]  with flag False before: the flag ends up as `any(C(t) ..)`"""
@@ -988,6 +1020,15 @@ def check_intersection(ctx, o, f):
         o.undecided(f, f.node, 'identity filter', f"the incoming tasks are additionally filtered by {sorted(extra)}")
         return
     o.site(f, f.node, "tasks already in the tree are recognised by object identity")
+    # the incoming list is the concatenation of the subtrees of the given tasks: a task named twice, or named together with one of its
+    # own descendants, is in it more than once.  Counting ids for duplicates needs that list reduced to one entry per OBJECT first
+    loose = [(n, a) for n, a in D_atoms if n in T.atoms_of(R) and a[1].src == 'incoming' and a[1].dedup is None and a[1].kind == 'list']
+    if loose and not opaque:
+        o.refute(f, f.node, 'duplicates counted per mention', "the test for different incoming tasks with equal ids counts the ids of the "
+                 "incoming subtrees without reducing them to one entry per task OBJECT first: a task given twice, or given together with one of "
+                 "its own descendants, counts as two tasks with one id and the attach is refused with a spurious id clash (a removed subtree "
+                 "cannot be re-attached that way)")
+        return
     # ---- property side:  D[new] or I[tree,new]  ==>  R      with   E[X] ==> not D, not I   for X a superset of new
     D = T.F_atom('D*')
     I = T.F_atom(I_name)
